@@ -281,6 +281,8 @@ func c13Ops(args []string) error {
 				switch o.K {
 				case "u", "f", "s":
 					w.Write(bitsVal(o.Bits), len(o.Bits))
+				case "b":
+					writePieces(w.Write, o.Bits)
 				default:
 					w.WriteExpGolomb(bitsVal(o.Bits) - 1)
 				}
@@ -356,6 +358,12 @@ func c13Ops(args []string) error {
 					bad = rd.ReadExpGolomb() != bitsVal(o.Bits)-1
 				case "se":
 					bad = rd.ReadSignedGolomb() != o.V
+				case "b": // one ReadBytes call, at whatever bit alignment the earlier ops left
+					want := make([]byte, len(o.Bits)/8)
+					for k := range want {
+						want[k] = byte(bitsVal(o.Bits[8*k : 8*k+8]))
+					}
+					bad = !bytes.Equal(rd.ReadBytes(len(want)), want)
 				}
 				if bad || rd.AccError() != nil {
 					rep.Violation("ebspreader/value-"+o.K, "EBSPReader returned a value different from the one written",
